@@ -49,7 +49,12 @@ func DeclaredType(md protoreflect.MessageDescriptor) (TypeRef, bool) {
 		if gen.IsCodeWrapper(md) {
 			return TypeRef{"FHIR", "code"}, true
 		}
-		if name == "Xhtml" || name == "ReferenceId" {
+		if name == "Xhtml" {
+			// (the repository spells this type name FHIR.Xhtml; no valid specifier names it, so the spelling is
+			// never asked for: only its place below Element is)
+			return TypeRef{"FHIR", "xhtml"}, true
+		}
+		if name == "ReferenceId" {
 			return TypeRef{}, false
 		}
 		return TypeRef{"FHIR", lowerFirst(name)}, true
@@ -101,6 +106,9 @@ func Parent(t TypeRef) (TypeRef, bool) {
 		return TypeRef{"FHIR", "Element"}, true
 	case "DomainResource":
 		return TypeRef{"FHIR", "Resource"}, true
+	}
+	if t.Name == "xhtml" {
+		return TypeRef{"FHIR", "Element"}, true
 	}
 	if p, ok := primitiveParents[t.Name]; ok {
 		return TypeRef{"FHIR", p}, true
